@@ -10,7 +10,7 @@ EXPLANATION = ('Every block-height deadline comparison named by the property is 
 	'`expiry - height <op> K` with K folded from the evaluated named constants, and checked against the value the property '
 	'demands (operator, constant, and which outcome the true edge leads to). Relations between the constants are re-derived from '
 	'their values. Algebraically equivalent rewrites pass; a </<= slip, a wrong constant, a dropped guard or an inverted branch '
-	'does not. Decides the shape of the guards for all integers at once; not whether the timing race is won.')
+	'does not. Also: every Ok exit of do_best_block_updated returns the HTLCs just dropped from the holding cell. Decides the shape of the guards for all integers at once; not whether the timing race is won.')
 ASSUMPTIONS = ['heights do not overflow u32', 'block confirmation times (the actual race) are out of scope']
 
 def consts(F):
